@@ -17,7 +17,7 @@
     pub open spec fn spec_bitlen(x: int) -> int decreases x { if x <= 0 { 0 } else { 1 + spec_bitlen(x / 2) } }
     pub assume_specification[ i32::ilog2 ](x: i32) -> (r: u32)
         requires x > 0,
-        ensures r as int + 1 == spec_bitlen(x as int);
+        ensures r as int + 1 == spec_bitlen(x as int), r <= 30;
     pub assume_specification[ i32::abs_diff ](x: i32, y: i32) -> (r: u32)
         ensures r as int == (if x as int >= y as int { x as int - y as int } else { y as int - x as int });
     pub assume_specification[ i32::unsigned_abs ](x: i32) -> (r: u32)
@@ -77,3 +77,43 @@
         requires s.len() == N,
         ensures r@ == s@,
     { <&[u8; N]>::try_from(s).expect("vp_as_array") }
+    pub assume_specification[ u8::reverse_bits ](x: u8) -> (r: u8)
+        ensures r == brv8(x);
+    // R10b: maximum of f over all coefficients of a vector of polynomials (= flat_map + map + max on a non-empty iterator);
+    // g is the (ghost) function the closure is proved to compute
+    pub fn vp_max_map<const ROW: usize, F: Fn(i32) -> i32>(w: &[R; ROW], f: F, Ghost(g): Ghost<spec_fn(i32) -> i32>) -> (r: i32)
+        requires ROW >= 1,
+            forall|x: int, n: int| 0 <= x < ROW && 0 <= n < 256 ==> call_requires(f, (#[trigger] w[x].0[n],)),
+            forall|e: i32, v: i32| call_ensures(f, (e,), v) ==> v == g(e),
+        ensures
+            forall|x: int, n: int| 0 <= x < ROW && 0 <= n < 256 ==> g(#[trigger] w[x].0[n]) <= r,
+            exists|x: int, n: int| 0 <= x < ROW && 0 <= n < 256 && g(#[trigger] w[x].0[n]) == r,
+    {
+        let mut best = f(w[0].0[0]);
+        let ghost mut bx: int = 0;
+        let ghost mut bn: int = 0;
+        let mut x: usize = 0;
+        while x < ROW
+            invariant x <= ROW, ROW >= 1, 0 <= bx < ROW, 0 <= bn < 256, g(w[bx].0[bn]) == best,
+                forall|xx: int, n: int| 0 <= xx < ROW && 0 <= n < 256 ==> call_requires(f, (#[trigger] w[xx].0[n],)),
+                forall|e: i32, v: i32| call_ensures(f, (e,), v) ==> v == g(e),
+                forall|xx: int, n: int| 0 <= xx < x && 0 <= n < 256 ==> g(#[trigger] w[xx].0[n]) <= best,
+            decreases ROW - x,
+        {
+            let mut n: usize = 0;
+            while n < 256
+                invariant n <= 256, x < ROW, ROW >= 1, 0 <= bx < ROW, 0 <= bn < 256, g(w[bx].0[bn]) == best,
+                    forall|xx: int, nn: int| 0 <= xx < ROW && 0 <= nn < 256 ==> call_requires(f, (#[trigger] w[xx].0[nn],)),
+                    forall|e: i32, v: i32| call_ensures(f, (e,), v) ==> v == g(e),
+                    forall|xx: int, nn: int| 0 <= xx < x && 0 <= nn < 256 ==> g(#[trigger] w[xx].0[nn]) <= best,
+                    forall|nn: int| 0 <= nn < n ==> g(#[trigger] w[x as int].0[nn]) <= best,
+                decreases 256 - n,
+            {
+                let v = f(w[x].0[n]);
+                if v > best { best = v; proof { bx = x as int; bn = n as int; } }
+                n += 1;
+            }
+            x += 1;
+        }
+        best
+    }
